@@ -175,7 +175,9 @@ impl Config {
             State::HunkHeader(_, _, _, _) => &self.hunk_header_style,
             State::SubmoduleLog => &self.file_style,
             State::SubmoduleShort(_) => &self.file_style,
-            _ => delta_unreachable("Unreachable code reached in get_style."),
+            // Any other state can be current when a pending file header is flushed (end of
+            // input inside a merge conflict, blame or grep output, ...): no raw style applies.
+            _ => &self.null_style,
         }
     }
 
